@@ -85,10 +85,47 @@ func (ProgressOracle) AfterCycle(r *Run, cycle int, all []Decision) {
 	}
 	placedByAllocate := map[string]bool{} // groups that got a placement from the allocate action
 	placedAny := map[string]bool{}
+	take := func(node string, p *RefPod) {
+		if f := free[node]; f != nil {
+			f.cpu -= p.Demand.CPUm
+			f.mem -= p.Demand.MemB
+			f.pods--
+			if p.Demand.Shared {
+				f.gpus -= p.Demand.Devices
+				f.pods -= p.Demand.Devices
+			} else {
+				f.gpus -= p.Demand.GPUs
+			}
+		}
+	}
+	lastNode := map[string]string{}
 	for _, d := range ds {
+		if d.Kind == "evict" {
+			// capacity freed by a later action's eviction was not idle when allocate ran: a victim that is already
+			// gone from the API store (it was only being bound) still counts on the node it was placed on
+			if p := pre.Pods[d.Pod]; p != nil {
+				node := lastNode[d.Pod]
+				if node == "" {
+					node = p.Node
+				}
+				counted := false
+				if o := occ[node]; o != nil {
+					for _, m := range o.Members {
+						if m == d.Pod {
+							counted = true
+						}
+					}
+				}
+				if node != "" && !counted {
+					take(node, p)
+				}
+			}
+			continue
+		}
 		if d.Kind != "bind" && d.Kind != "pipeline" {
 			continue
 		}
+		lastNode[d.Pod] = d.Node
 		p := pre.Pods[d.Pod]
 		if p == nil {
 			continue
@@ -98,17 +135,7 @@ func (ProgressOracle) AfterCycle(r *Run, cycle int, all []Decision) {
 			placedByAllocate[p.Group] = true
 		}
 		if d.Kind == "pipeline" { // nominated pods reserve their target (binds are already in the API store)
-			if f := free[d.Node]; f != nil {
-				f.cpu -= p.Demand.CPUm
-				f.mem -= p.Demand.MemB
-				f.pods--
-				if p.Demand.Shared {
-					f.gpus -= p.Demand.Devices
-					f.pods -= p.Demand.Devices
-				} else {
-					f.gpus -= p.Demand.GPUs
-				}
-			}
+			take(d.Node, p)
 		}
 	}
 	// ---- queue allocations after the cycle (for limits / quota rules)
